@@ -287,6 +287,10 @@ class Mirror:
         k = py_norm(ln, i)
         return k is None or self.ieval(self.P[which], ln, i) == k or k + 1 == ln
 
+    def pop_all_reason(self, n):
+        ok = all(l <= self.ieval(self.P["ie_pop"], l, -1) + 1 for l in range(1, n + 1))
+        return 0 if ok else 1
+
     def extend_reason(self, c, xs):
         dup = 0 if (self.P["f_extend_dup"] or len(set(xs)) == len(xs)) else 6
         return self.first([dup, self.depth(c)] + [self.link(c, x) for x in xs])
@@ -313,8 +317,10 @@ class Mirror:
         if name == "pop":
             c, i = op[1], op[2]
             return self.first([0 if self.unlink_ok("ie_pop", len(self.kids[c]), i) else 1, self.depth(c)])
-        if name in ("poplast", "pop_all", "clear", "reverse"):
+        if name in ("poplast", "clear", "reverse"):
             return self.depth(op[1])
+        if name == "pop_all":
+            return self.first([self.pop_all_reason(len(self.kids[op[1]])), self.depth(op[1])])
         if name == "remove":
             c, x = op[1], op[2]
             j = self.find_eq(c, x)
@@ -328,16 +334,21 @@ class Mirror:
             return 0
         if name == "detach":
             p = self.par[op[1]]
-            return 0 if p is None else self.depth(p)
+            if p is None or op[1] not in self.kids[p]:
+                return 0
+            return self.reason(("pop", p, self.kids[p].index(op[1])))
         if name == "replace_with":
             p = self.par[op[1]]
-            return 0 if p is None else self.first([self.link(p, op[2]), self.depth(p)])
+            if p is None or op[1] not in self.kids[p]:
+                return 0
+            return self.reason(("setitem", p, self.kids[p].index(op[1]), op[2]))
         if name == "set_children":
             return None          # needs the outcome: computed by the caller (set_children_reason)
         raise AssertionError(name)
 
     def set_children_reason(self, op, failed):
         c, xs = op[1], op[2]
+        pa = self.pop_all_reason(len(self.kids[c]))
         d = self.depth(c)
         setter = 0 if (self.P["f_setter_atomic"] or not failed) else 8
         saved = list(self.par)
@@ -347,7 +358,7 @@ class Mirror:
         self.kids[c] = []
         e = self.extend_reason(c, xs)
         self.par, self.kids[c] = saved, old_kids
-        return self.first([d, setter, e])
+        return self.first([pa, d, setter, e])
 
 
 # ---------------------------------------------------------------- printing cases for Coq
@@ -487,7 +498,11 @@ def builder(rng, n_build):
         for _ in range(30):
             c = rng.randrange(n)
             ln = len(snap[c][1])
-            cand = [x for x in range(n) if snap[x][0] is None and x != c and real_valid(pool, c, ln, x)]
+            anc, a = set(), c
+            while a is not None and a not in anc:
+                anc.add(a)
+                a = snap[a][0]
+            cand = [x for x in range(n) if snap[x][0] is None and x not in anc and real_valid(pool, c, ln, x)]
             if not cand:
                 continue
             x = rng.choice(cand)
@@ -503,13 +518,15 @@ def builder(rng, n_build):
     return gen
 
 
-def random_op(rng, pool, snap):
+def random_op(rng, pool, snap, focus=None):
     n = len(snap)
     name = wchoice(rng, OPS_W)
     with_kids = [c for c in range(n) if snap[c][1]]
     orphans = [x for x in range(n) if snap[x][0] is None]
 
     def container():
+        if focus is not None and rng.random() < 0.5:
+            return focus
         if with_kids and rng.random() < 0.75:
             return rng.choice(with_kids)
         return rng.randrange(n)
@@ -521,14 +538,22 @@ def random_op(rng, pool, snap):
         return rng.randint(-ln, max(ln - 1, 0)) if r < 0.8 else rng.randint(-ln - 2, ln + 2)
 
     def item(c, pos):
-        """mostly an orphan that the container accepts at the intended position"""
+        """mostly an orphan that the container accepts at the intended position (rarely one of the
+        container's ancestors: that is the cycle defect, which ends the history)"""
+        anc, a = set(), c
+        while a is not None and a not in anc:
+            anc.add(a)
+            a = snap[a][0]
+        avoid = anc if rng.random() < 0.96 else set()
         r = rng.random()
-        if r < 0.55 and pos is not None:
-            cand = [x for x in orphans if x != c and real_valid(pool, c, pos, x)]
+        if r < 0.6 and pos is not None:
+            cand = [x for x in orphans if x not in avoid and real_valid(pool, c, pos, x)]
             if cand:
                 return rng.choice(cand)
-        if r < 0.85 and orphans:
-            return rng.choice(orphans)
+        if r < 0.88:
+            cand = [x for x in orphans if x not in avoid]
+            if cand:
+                return rng.choice(cand)
         return rng.randrange(n)
 
     c = container()
@@ -584,22 +609,55 @@ def random_op(rng, pool, snap):
             xs = cur[:-1] if cur else []
         else:
             xs = [item(c, j) for j in range(rng.choice([0, 1, 2, 3]))]
-        if len(xs) >= 2 and rng.random() < 0.1:
+        if len(xs) >= 2 and rng.random() < 0.08:
             xs[-1] = xs[0]
+        # a failing assignment is the (history-ending) setter defect: keep it rare
+        will_fail = any(not real_valid(pool, c, j, x) or (snap[x][0] is not None and snap[x][0] != c)
+                        for j, x in enumerate(xs))
+        if will_fail and rng.random() < 0.8:
+            xs = list(snap[c][1])
         return ("set_children", c, xs)
     raise AssertionError(name)
 
 
-def random_history(rng, n_build, n_random):
+def random_history(rng, n_build, n_random, prefix=(), focus=None):
     b = builder(rng, n_build)
+    npre = len(prefix)
 
     def gen(pool, snap, k):
-        if k < n_build:
-            return b(pool, snap, k)
-        if k >= n_build + n_random:
+        if k < npre:
+            return prefix[k]
+        if k < npre + n_build:
+            return b(pool, snap, k - npre)
+        if k >= npre + n_build + n_random:
             return None
-        return random_op(rng, pool, snap)
+        return random_op(rng, pool, snap, focus)
     return gen
+
+
+# position-sensitive containers, fully built by a scripted prefix; (kinds, prefix operations)
+TEMPLATES = [
+    ([("Loop", 0), ("Literal", 0), ("Literal", 1), ("Reference", 0), ("Schedule", 0)], [("extend", 0, [1, 2, 3, 4])]),
+    ([("Call", 0), ("Reference", 0), ("Literal", 0), ("Reference", 1), ("Literal", 1)], [("extend", 0, [1, 2, 3])]),
+    ([("IfBlock", 0), ("Literal", 0), ("Schedule", 0), ("Schedule", 0)], [("extend", 0, [1, 2, 3])]),
+    ([("Assignment", 0), ("Reference", 0), ("Literal", 0)], [("append", 0, 1), ("addchild", 0, 2, None)]),
+    ([("BinaryOperation", 0), ("Reference", 0), ("Literal", 0)], [("set_children", 0, [1, 2])]),
+    ([("WhileLoop", 0), ("Literal", 0), ("Schedule", 0)], [("extend", 0, [1, 2])]),
+    ([("Range", 0), ("Literal", 0), ("Literal", 1), ("Literal", 0)], [("extend", 0, [1, 2, 3])]),
+    ([("OMPParallelDirective", 0), ("OMPDefaultClause", 0), ("OMPPrivateClause", 0), ("OMPFirstprivateClause", 0),
+      ("OMPReductionClause", 0), ("OMPReductionClause", 0)], [("extend", 0, [2, 3, 4, 5]), ("append", 0, 6)]),
+    ([("OMPSingleDirective", 0), ("OMPNowaitClause", 0)], [("append", 0, 2)]),
+    ([("Schedule", 0), ("Return", 0), ("Return", 0), ("Assignment", 0), ("Assignment", 0)], [("extend", 0, [1, 3, 2, 4])]),
+    ([("ArrayReference", 0), ("Literal", 0), ("Range", 0), ("Literal", 0)], [("extend", 0, [1, 2, 3])]),
+]
+
+
+def make_template_pool(rng, extra):
+    kinds, prefix = rng.choice(TEMPLATES)
+    pool = pool_from(kinds)
+    for _ in range(extra):
+        pool.new(wchoice(rng, KIND_WEIGHTS), rng.randrange(2))
+    return pool, prefix
 
 
 def scripted(ops):
@@ -719,20 +777,25 @@ def run(ctx):
         rec["name"] = name
         recs.append(rec)
     rng = ctx.rng("hist")
-    n_hist = ctx.pick(700, 9000)
+    n_hist = ctx.pick(1000, 8000)
     n_random = ctx.pick(12, 40)
     for h in range(n_hist):
-        pool = make_pool(rng, rng.randint(5, 14))
-        n_build = rng.randint(0, 14)
-        n_rand = rng.randint(1, n_random)
-        rec = run_history(pool, random_history(rng, n_build, n_rand), P, ieval, n_build + n_rand)
-        rec["name"] = "random-%d" % h
-        rec["n_build"] = n_build
+        n_rand = rng.randint(max(1, n_random // 3), n_random)
+        if h % 2 == 0:
+            pool = make_pool(rng, rng.randint(5, 14))
+            n_build, prefix, focus = rng.randint(0, 14), (), None
+        else:
+            pool, prefix = make_template_pool(rng, rng.randint(1, 7))
+            n_build, focus = rng.randint(0, 6), 0
+        rec = run_history(pool, random_history(rng, n_build, n_rand, prefix, focus), P, ieval,
+                          len(prefix) + n_build + n_rand)
+        rec["name"] = "%s-%d" % ("random" if h % 2 == 0 else "template", h)
+        rec["n_build"] = len(prefix) + n_build
         recs.append(rec)
     # --- statistics
     for rec in recs:
         nb = rec.get("n_build", 0)
-        rand_steps = rec["steps"][nb:] if rec["name"].startswith("random") else rec["steps"]
+        rand_steps = rec["steps"][nb:]
         nontriv = any(s["err"] == 0 and s["diff"] for s in rand_steps)
         ctx.count((rec["kinds"], [s["op"] for s in rec["steps"]]), nontriv)
         ctx.hist("history_length", len(rec["steps"]))
@@ -823,6 +886,32 @@ def run(ctx):
                                      for s in recs[i]["steps"]],
                            "n_differing": len(failing)}, no_input=True)
     extra_checks(ctx)
+
+
+def replay(ctx, path):
+    """./check C14 --replay replays/C14-xxxx.json : re-run the recorded history on the tree under test"""
+    d = json.loads(Path(path).read_text())
+    d = d.get("first_differing_case", d)
+    pool = pool_from([tuple(k) for k in d["node_kinds"]][:1] and [])
+    # region directives register their own Schedule: recreate nodes in order, skipping those entries
+    kinds = [tuple(k) for k in d["node_kinds"]]
+    while len(pool.nodes) < len(kinds):
+        pool.new(*kinds[len(pool.nodes)])
+    snap = pool.snapshot()
+    print("initial forest:", snap)
+    rc = 0
+    for k, op in enumerate(d["operations"]):
+        op = tuple(tuple(x) if False else x for x in op)
+        err = apply_real(pool, tuple(op))
+        after = pool.snapshot()
+        why = inv_direct(pool, after)
+        changed = err != 0 and after != snap
+        print("step %d %s -> error code %d; forest %s%s%s" % (k, list(op), err, after,
+              "; INVARIANT FAILS: " + why if why else "", "; RAISED BUT CHANGED THE TREE" if changed else ""))
+        if why or changed:
+            rc = 1
+        snap = after
+    return rc
 
 
 def extra_checks(ctx):
